@@ -1226,6 +1226,22 @@ func (m *Manager) Unlock(ns walletdb.ReadBucket, passphrase []byte) error {
 	// Use the crypto private key to decrypt all of the account private
 	// extended keys.
 	for _, manager := range m.scopedManagers {
+		// The account of an address created while locked may have been
+		// dropped from the cache since (InvalidateAccountCache). Load
+		// it now, so that its private key is decrypted below rather
+		// than the account being reloaded without it, while the
+		// manager still counts as locked, by the derivations further
+		// down.
+		for _, info := range manager.deriveOnUnlock {
+			_, err := manager.loadAccountInfo(
+				ns, info.managedAddr.InternalAccount(),
+			)
+			if err != nil {
+				m.lock()
+				return err
+			}
+		}
+
 		for account, acctInfo := range manager.acctInfo {
 			// Imported watch-only accounts have no private key
 			// that could be decrypted.
